@@ -23,19 +23,19 @@ TARGETS = ['boltons.ioutils.SpooledBytesIO.write', 'boltons.ioutils.SpooledBytes
            'boltons.ioutils.SpooledIOBase.__next__', 'boltons.ioutils.SpooledIOBase.__len__', 'boltons.ioutils.MultiFileReader.read',
            'boltons.ioutils.MultiFileReader.seek', 'boltons.ioutils.MultiFileReader.__init__']
 BOUNDS = {
-    'quick': {'script': 'preset content + 2 solver-chosen operations from write/read(n)/read()/readline/readlines/iterate/seek(p)/seek-to-end/tell/getvalue/len',
+    'quick': {'script': 'preset content + 2 solver-chosen operations from write/read(n)/read()/readline/readline(n)/readlines/iterate/seek(p)/seek-to-end/tell/getvalue/len',
               'max_size': 'every value 1..len(data)+3 and never-rolling', 'chunks': 'classes ASCII, 2-, 3-, 4-byte, LF, CR, CRLF',
               'multifile': 'content <= 5 items, <= 3 member files (empty members allowed), 3 operations'},
     'thorough': {'script': '3 operations'},
 }
 ASSUMPTIONS = ['writes append (the position is moved to the end first, as the statement says "appending writes")', 'UTF-8',
                'io.BytesIO / io.StringIO(newline="\\n" semantics) are the reference']
-OUT_OF_CLAIM = ['truncate, fileno users, universal-newline translation', 'seek beyond the data', 'other encodings', 'longer scripts']
+OUT_OF_CLAIM = ['readlines(sizehint): the hint is advisory, and CPython\'s own BytesIO / file objects / StringIO stop at different totals', 'truncate, fileno users, universal-newline translation', 'seek beyond the data', 'other encodings', 'longer scripts']
 STUBS = ['none: real TemporaryFile objects are used for the rolled-over state (all arguments are concrete when the file code runs)']
 
 CHUNKS = ['a', '\xe9', '€', '\U0001f600', '\n', '\r', '\r\n', 'bc\n', '\x85', '\u2028x']
 PRESETS = ['', 'a\n\xe9€\r\nb\U0001f600', 'x\r\n\n\ryz', 'p\x0bq\x85r\u2028s\n\x1ct']
-OPS = ['write', 'read_n', 'read_all', 'readline', 'readlines', 'iterate', 'seek', 'seek_end', 'tell', 'getvalue', 'len', 'bool_len']
+OPS = ['write', 'read_n', 'read_all', 'readline', 'readlines', 'iterate', 'seek', 'seek_end', 'tell', 'getvalue', 'len', 'bool_len', 'readline_n']
 
 
 def apply(f, op, arg, text, is_ref, chunk):
@@ -51,6 +51,8 @@ def apply(f, op, arg, text, is_ref, chunk):
         return f.read()
     if op == 'readline':
         return f.readline()
+    if op == 'readline_n':
+        return f.readline(arg)
     if op == 'readlines':
         return f.readlines()
     if op == 'iterate':
@@ -130,7 +132,7 @@ def spool_law(o1: int, a1: int, c1: int, o2: int, a2: int, c2: int, o3: int, a3:
         if op == 'write':
             c = cz(c, 0, len(CHUNKS) - 1)
             a = 0
-        elif op == 'read_n':
+        elif op in ('read_n', 'readline_n'):
             a = cz(a, 0, 3)
             c = 0
         elif op == 'seek':
